@@ -267,6 +267,17 @@ static void join_unit(int id, int by)
 
 static void gate_lock(void);
 static void gate_unlock(void);
+static void self_cancel(unit *u, ABT_thread self)
+{
+    gate_lock();
+    if (!u->cancel_me) {
+        u->cancel_me = 1;
+        vs_log("apiCall cancel U%d", u->id);
+        ABT_OK(ABT_thread_cancel(self));
+        u->cancel_done = 1;
+    }
+    gate_unlock();
+}
 static void unit_fn(void *arg)
 {
     unit *u = (unit *)arg;
@@ -287,8 +298,16 @@ static void unit_fn(void *arg)
         u->pool = u->first_pool;
     }
     int children[8], nch = 0;
+    /* now and then the unit posts a cancellation request on itself right before one of its steps (or before it joins its
+     * children): the request is then pending at whatever scheduling point comes next — a yield ends the unit, every other
+     * kind of switch (suspension, blocking join, directed switch, migration) must work as if nothing were pending */
+    int cancel_at = -1;
+    if (u->parent < 0 && u->kind == AK_ULT && u->life == 0 && !u->ext_join && !u->moves && sc_rnd(6) == 0)
+        cancel_at = sc_rnd(u->nsteps + 1);
     for (int i = 0; i < u->nsteps; i++) {
         int op = u->steps[i];
+        if (i == cancel_at)
+            self_cancel(u, self);
         vs_note("step U%d %s", u->id, OPN_[op]);
         switch (op) {
             case OP_YIELD: {
@@ -594,18 +613,8 @@ static void unit_fn(void *arg)
             }
         }
     }
-    if (nch > 0 && u->parent < 0 && u->kind == AK_ULT && u->life == 0 && !u->ext_join && sc_rnd(5) == 0) {
-        /* a cancellation request is pending on this unit when it blocks in the join of a child: it must not disturb the
-         * hand-shake with the child (the request takes effect at this unit's next yield, or never if it just returns) */
-        gate_lock();
-        if (!u->cancel_me) {
-            u->cancel_me = 1;
-            vs_log("apiCall cancel U%d", u->id);
-            ABT_OK(ABT_thread_cancel(self));
-            u->cancel_done = 1;
-        }
-        gate_unlock();
-    }
+    if (cancel_at == u->nsteps && nch > 0)
+        self_cancel(u, self);
     for (int k = 0; k < nch; k++)
         join_unit(children[k], u->id);
     u->finished++;
